@@ -63,7 +63,9 @@ THEOREMS = [
 ]
 PARTIAL = {
     'angles_in_degrees': 'read-back of lengths and angles is proved in squared / cosine form over every ordered field '
-                         '(abc_gram, abc_rebuild_normal, abc_rebuild_rotation); the wrappers sqrt, cos(angle*pi/180) and '
+                         '(abc_gram, abc_rebuild_normal, abc_rebuild_rotation; the cosine computed by tools.vect_angle is translated '
+                         'and proved to be the cosine of the angle, within [-1, 1] and independent of the unit: src_vect_angle, '
+                         'angleCos_spec, angleCos_sq_le_one, angleCos_scale); the wrappers sqrt, cos(angle*pi/180) and '
                          '180*arccos(.)/pi are float library calls: they are parameters of the model (hypotheses '
                          'ly*ly = …, lz*lz = …, b*c*ca = bvect·cvect …) and are compared numerically in the correspondence',
     'rounding': 'theorems are exact (field) statements; the "up to a stated relative rounding bound" part of the property '
